@@ -155,7 +155,10 @@ func stored(pins []*api.Pin) map[string]*api.Pin {
 	for _, p := range pins {
 		q := *p
 		q.UserAllocations = nil
-		q.Mode = q.MaxDepth.ToPinMode()
+		q.Mode = api.PinModeRecursive
+		if q.MaxDepth == 0 {
+			q.Mode = api.PinModeDirect
+		}
 		if !q.ExpireAt.IsZero() {
 			q.ExpireAt = time.Unix(q.ExpireAt.Unix(), 0)
 		}
@@ -664,10 +667,14 @@ func peerstoreMalformed(c *fw.Ctx, r *fw.Rand, dir string) {
 	kinds := map[string]bool{}
 	n := r.Range(1, 12)
 	for i := 0; i < n; i++ {
-		switch r.Intn(6) {
+		switch r.Intn(7) {
 		case 0:
 			lines = append(lines, "")
 			kinds["blank"] = true
+		case 6:
+			// a multiaddress all right, but not the address of a peer: loaded, and skipped on import
+			lines = append(lines, genAddr(r, false).String())
+			kinds["peerless"] = true
 		case 1:
 			lines = append(lines, "# "+r.Str(10))
 			kinds["comment"] = true
@@ -733,6 +740,25 @@ func peerstoreMalformed(c *fw.Ctx, r *fw.Rand, dir string) {
 			c.Violation("C14/peerstore/malformed-lines-not-skipped", "loaded addresses are not exactly the valid lines", map[string]interface{}{"file": lines, "loaded": got, "valid": want})
 		}
 		pm.ImportPeersFromPeerstore(false, time.Hour)
+		// every usable line made it into the host's peerstore, whatever surrounds it
+		for _, v := range valid {
+			m, _ := ma.NewMultiaddr(v)
+			pi, err := peer.AddrInfoFromP2pAddr(m)
+			if err != nil || len(pi.Addrs) == 0 {
+				continue
+			}
+			found := false
+			for _, a := range h.Peerstore().Addrs(pi.ID) {
+				if a.Equal(pi.Addrs[0]) {
+					found = true
+				}
+			}
+			c.Eval("peerstore/malformed/imported")
+			if !found {
+				c.Violation("C14/peerstore/valid-line-not-imported", "a peer address of the file is not in the host's peerstore after the import: "+v, map[string]interface{}{"file": lines})
+				break
+			}
+		}
 	}()
 }
 
